@@ -2242,6 +2242,8 @@ class Recipe:
             raise TypeError("Destination must be a container.")
         if destination.name not in self.results:
             raise ValueError(f"Destination {destination.name} has not been previously declared for use.")
+        if new_name and new_name != destination.name and new_name in self.results:
+            raise ValueError(f"An object with the name: \"{new_name}\" is already in use.")
         # if solute not in destination.contents:
         #     raise ValueError(f"Container does not contain {solute.name}.")
 
@@ -2330,6 +2332,7 @@ class Recipe:
         if self.current_stage != 'all':
             self.end_stage(self.current_stage)
 
+        renamed = {}
         for step in self.steps:
             # Keep track of what was used in each step
             for elem in step.frm + step.to:
@@ -2489,7 +2492,11 @@ class Recipe:
                 step.frm.append(None)
                 step.to[0] = self.results[dest_name]
                 self.used.add(dest_name)
-                self.results[dest_name] = self.results[dest_name].dilute(solute, concentration, solvent, new_name)
+                # the new name is given when all steps are done: later steps, and the tracking queries, find the
+                # container under the name it was declared with
+                self.results[dest_name] = self.results[dest_name].dilute(solute, concentration, solvent)
+                if new_name:
+                    renamed[dest_name] = new_name
                 amount_added = (self.results[dest_name].contents.get(solvent, 0) -
                                 step.to[0].contents.get(solvent, 0))
                 amount_added = Unit.convert_from(solvent, amount_added, config.moles_storage_unit, 'L')
@@ -2595,6 +2602,9 @@ class Recipe:
 
         if len(self.used) != len(self.results):
             raise ValueError("Something declared as used wasn't used.")
+        for dest_name, new_name in renamed.items():
+            self.results[dest_name] = deepcopy(self.results[dest_name])
+            self.results[dest_name].name = new_name
         self.locked = True
         # All the PlateSlicers should have been resolved into Plates by now
         assert all(isinstance(elem, (Container, Plate)) for elem in self.results.values())
